@@ -79,6 +79,7 @@ func init() {
 }
 
 func runC06(c *Ctx) {
+	procStateFresh(c, "S1-per-packet-state")
 	pp := "4:router.slowPathType"
 	unkIn := c.Const("pkg/slayers.SCMPCodeUnknownHopFieldIngress")
 	unkEg := c.Const("pkg/slayers.SCMPCodeUnknownHopFieldEgress")
